@@ -104,6 +104,42 @@ func (c *Conn) call(what string) {
 	}
 }
 
+// appendBytes and copyBytes avoid runtime.slicecopy / growslice, which report
+// their accesses to the race detector even when called from //go:norace code:
+// the connection's buffers are shared between the scheduler and the client
+// goroutines under a lock whose synchronisation is deliberately hidden.
+//
+//go:norace
+func appendBytes(dst, src []byte) []byte {
+	n := len(dst) + len(src)
+	if n > cap(dst) {
+		c := 2*cap(dst) + len(src) + 64
+		nd := make([]byte, len(dst), c)
+		for i := range dst {
+			nd[i] = dst[i]
+		}
+		dst = nd
+	}
+	l := len(dst)
+	dst = dst[:n]
+	for i := range src {
+		dst[l+i] = src[i]
+	}
+	return dst
+}
+
+//go:norace
+func copyBytes(dst, src []byte) int {
+	n := len(src)
+	if len(dst) < n {
+		n = len(dst)
+	}
+	for i := 0; i < n; i++ {
+		dst[i] = src[i]
+	}
+	return n
+}
+
 func opErr(op string, err error) error {
 	return &net.OpError{Op: op, Net: "tcp", Source: addr("10.0.0.1:40000"), Addr: addr("10.0.0.2:9000"), Err: err}
 }
@@ -135,7 +171,7 @@ func (c *Conn) Read(p []byte) (int, error) {
 				c.Fired["short_read"]++
 			}
 			c.ReadCap = 0
-			copy(p, c.inbox[:n])
+			copyBytes(p, c.inbox[:n])
 			c.inbox = c.inbox[n:]
 			c.ReadBytes += n
 			c.unlock()
@@ -228,7 +264,7 @@ func (c *Conn) Write(p []byte) (int, error) {
 		}
 		if n > 0 {
 			c.Writes = append(c.Writes, WriteRec{Gid: sched.Gid(), Step: c.Sim.Step, Off: len(c.Out), N: n, At: c.Sim.Now()})
-			c.Out = append(c.Out, p[:n]...)
+			c.Out = appendBytes(c.Out, p[:n])
 		}
 		c.unlock()
 		return n, err
@@ -308,7 +344,7 @@ func (c *Conn) Enqueue(b []byte) {
 		if keep < 0 {
 			keep = 0
 		}
-		c.queue = append(c.queue, b[:keep]...)
+		c.queue = appendBytes(c.queue, b[:keep])
 		c.enq += keep
 		if c.CutRST {
 			c.rstQ = true
@@ -319,7 +355,7 @@ func (c *Conn) Enqueue(b []byte) {
 		}
 		return
 	}
-	c.queue = append(c.queue, b...)
+	c.queue = appendBytes(c.queue, b)
 	c.enq += len(b)
 }
 
@@ -383,7 +419,7 @@ func (c *Conn) Deliver(n int, readCap int) {
 		if n < 1 {
 			n = 1
 		}
-		c.inbox = append(c.inbox, c.queue[:n]...)
+		c.inbox = appendBytes(c.inbox, c.queue[:n])
 		c.queue = c.queue[n:]
 		c.Delivered += n
 		c.ReadCap = readCap
@@ -432,7 +468,7 @@ func (c *Conn) ConsumeTo(n int) {
 func (c *Conn) OutCopy() []byte {
 	c.lock()
 	defer c.unlock()
-	return append([]byte(nil), c.Out...)
+	return appendBytes(nil, c.Out)
 }
 
 //go:norace
